@@ -337,6 +337,7 @@ fn run_history(r: &Report, all: &[History], idx: usize, prm: &Params) -> Acc {
             return acc;
         }
     };
+    let t0 = std::time::Instant::now();
     phases::positive(&mut acc, h, &base);
     if r.over_budget_frac(0.9) {
         acc.capped = true;
@@ -352,8 +353,12 @@ fn run_history(r: &Report, all: &[History], idx: usize, prm: &Params) -> Acc {
     phases::btr(&mut acc, h, &base, prm);
     phases::suffix(&mut acc, h, &base, prm);
     let scripted = h.label.starts_with("scripted:");
+    let t1 = t0.elapsed().as_secs_f64();
     if prm.thorough || scripted || idx % 16 == 0 {
         phases::retained(&mut acc, h, &base, prm, r);
+    }
+    if std::env::var("C05_TIMING").is_ok() {
+        eprintln!("[C05] history {idx} {} entries={} evals={} t={:.2}s retained+={:.2}s", h.label, h.entries.len(), acc.evals, t1, t0.elapsed().as_secs_f64() - t1);
     }
     acc
 }
@@ -387,6 +392,7 @@ fn main() {
         donors: r.pick(3, 8),
     };
     let g = generate(&r);
+    eprintln!("[C05] generated {} histories in {:.1}s", g.histories.len(), r.elapsed_s());
     if g.capped {
         r.cap_hit("history BFS stopped by the wall cap");
     }
@@ -423,6 +429,7 @@ fn main() {
         .map(|i| run_history(&r, hs, i, &prm))
         .collect();
 
+    eprintln!("[C05] mutation sweep done at {:.1}s", r.elapsed_s());
     // ---- deterministic merge ----
     let mut accepted_same: BTreeMap<String, u64> = BTreeMap::new();
     let mut accepted_meta: BTreeMap<String, u64> = BTreeMap::new();
